@@ -10,6 +10,7 @@ import json, os, re, sys, itertools
 import vf
 
 AREA = "C09"
+EXTRA_DRAWS = 40000      # continuation of a stream that ran out (a generous cap; beyond it the case is inconclusive)
 
 
 # ------------------------------------------------------------------ python specification: finite fields
@@ -411,8 +412,8 @@ class Case(object):
     def base(self):
         return self.op.split(".")[0]
 
-    def describe(self):
-        return {"op": self.op, "field": self.F.name, "stream": self.stream[:40], "args": self.args, "class": self.klass}
+    def describe(self, full=True):
+        return {"op": self.op, "field": self.F.name, "stream": self.stream[:(3000 if full else 12)], "args": self.args, "class": self.klass}
 
 
 def fac_class(F, P, facs):
@@ -699,11 +700,9 @@ def verdict(c, payload):
     """None = the implementation's answer satisfies the property; else (expected, reason)"""
     F, b = c.F, c.base()
     if payload.startswith("EXHAUSTED"):
-        if F.p == 2 and b in ("cz", "ddf", "split", "split1"):
-            # characteristic 2: the (q^d-1)/2 power is useless there, a draw splits only with probability ~ k/q^d;
-            # running out of the supplied draws is slowness, not a wrong answer: no verdict
-            return None
-        return ("a result", "the call did not finish within the %d random draws supplied" % len(c.stream))
+        # running out of the supplied random draws (even after the long continuation, see main) is not a wrong answer:
+        # inconclusive.  main() turns it into a failing input only when the model, fed the same stream, does finish.
+        return ("INCONCLUSIVE", "the call did not finish within the %d random draws supplied" % len(c.stream))
     if payload.startswith(("EXN", "THROW", "UNKNOWN")):
         return ("a result", "the call ended with " + payload)
     if b in ("irr", "irr2"):
@@ -890,6 +889,18 @@ def main(tier, replay=None):
     if len(iout) != len(cases):
         chk.broke("implementation harness failed (rc=%s, %d/%d lines)" % (rc, len(iout), len(cases)), ierr)
         return chk.finish()
+    # cases that ran out of random draws get a long deterministic continuation of their stream (same on both sides)
+    retry = [i for i in range(len(cases)) if iout[i].startswith("EXHAUSTED")]
+    for i in retry:
+        r2 = vf.Rng(chk.seed * 1000003 + i)
+        cases[i].stream = list(cases[i].stream) + stream(r2, EXTRA_DRAWS)
+    if retry:
+        rc2, out2, err2 = run_isolated(himpl, [cases[i] for i in retry], 120 if tier == "quick" else 600)
+        if len(out2) == len(retry):
+            for i, l in zip(retry, out2):
+                iout[i] = l
+    chk.cov["streams_continued"] = len(retry)
+    ninconclusive = 0
     # model: prime fields only
     midx = [i for i, c in enumerate(cases) if isinstance(c.F, Fp) and c.op in MODEL_OP and not c.meta.get("nomodel")]
     big = [i for i in midx if cases[i].F.p > 1000]       # the extracted model runs on unary/binary inductives: sample the big field
@@ -914,10 +925,19 @@ def main(tier, replay=None):
         nontrivial = not (b in ("irr", "irr2") and len(ppar(c.args[0])) <= 2)
         chk.count((c.op, c.F.name, tuple(c.args), tuple(c.stream[:8])), nontrivial=nontrivial)
         if i % 211 == 0:
-            chk.sample({"case": c.describe(), "impl": iout[i]})
+            chk.sample({"case": c.describe(False), "impl": iout[i][:300]})
         if payload.startswith("SKIPPED"):
             continue
         v = verdict(c, payload) if not payload.startswith(("CRASH", "HANG")) else ("a result", "the call crashed or hung: " + payload)
+        if v is not None and v[0] == "INCONCLUSIVE":
+            mp = parse_out(mout[i])[0] if i in mout else "EXHAUSTED"
+            if not mp.startswith(("EXHAUSTED", "EXN")):
+                d = c.describe(); d["stream"] = "%d draws (seed-derived)" % len(c.stream)
+                chk.fail_input(SITE.get(b, b), "does not finish", d, mp[:200], iout[i],
+                               "the implementation does not finish within %d random draws although the model, fed the same stream, returns" % len(c.stream))
+            else:
+                ninconclusive += 1
+            continue
         if v is not None and v[0] == "ORACLE":
             chk.broke("python specification inconsistent on %s: %s" % (c.line(), v[1]))
             continue
@@ -979,6 +999,7 @@ def main(tier, replay=None):
                        "non-monic) and random; orders: every element of small fields; requests: every degree 1..7. non-trivial = not a degree<=1 irreducibility query "
                        "and the random stream was not exhausted; distinct = (call form, field, arguments, stream prefix)")
     chk.cov["traces_validated_against_impl"] = ncorr
+    chk.cov["inconclusive_stream_exhausted"] = ninconclusive
     chk.cov["verified_checker_decisions"] = nver
     chk.cov["fields"] = [F.name for F in fields + gfq]
     chk.cov["call_forms"] = sorted(set(c.op for c in cases))
